@@ -29,7 +29,7 @@ def run(ck):
     base = [Op("BT"), Nm("F1"), N(10), Op("Tf"), N(3), N(700), Op("Td"), S(b"A B"), Op("Tj"), N(1), Op("Tc"),
             {"t": "arr", "n": 0, "s": [], "a": [S(b"A"), N(-100), S(b"B")]}, Op("TJ"), Op("q"), N(2), N(0), N(0), N(2), N(1), N(1), Op("cm"),
             Nm("Fm1"), Op("Do"), Op("Q"), S(b"B"), Op("'"), Op("ET"), N(0), N(0), N(3), N(3), Op("re"), Op("B")]
-    for _ in range(40 if ck.tier == "quick" else 300):
+    for _ in range(60 if ck.tier == "quick" else 300):
         progs.append(base)
     IC.split_invariance(ck, "C05", progs)
     IC.direction_b(ck, "C05")
